@@ -119,6 +119,22 @@ def scaled_values(html):
     return vals
 
 
+def scale_shown(text, k):
+    """a displayed value ('200 g', '1/2', '4 large or 6 small' is several values) multiplied by k and displayed as the documentation
+    prescribes (exact numbers only: whole numbers and the listed denominators); None when that cannot be decided here"""
+    import re
+    from .c11 import own_format
+    m = re.match(r"^(\d+ \d+\u2044\d+|\d+\u2044\d+|\d+)(?![\d.])(.*)$", " ".join(text.split()), re.S)
+    if not m:
+        return None
+    num = m.group(1).replace("\u2044", "/")
+    v = sum(Fraction(p) for p in num.split())
+    shown = own_format(v * k)
+    if shown is None:
+        return None
+    return shown.replace("/", "\u2044") + m.group(2)
+
+
 def ancestors(n):
     n = n.parent
     while n is not None:
@@ -167,6 +183,11 @@ def check_site(d, M, mode="abs"):
                         continue
                     html = (gen_out / path[1:]).read_text()
                     k = 1 if n is None else Fraction(n, r["servings"])
+                    # independently of the code's own scaling: every value shown on the unscaled rendering, multiplied by k here
+                    want = [scale_shown(v, k) for v in scaled_values(mr.render(1))]
+                    got_vals = scaled_values(html)
+                    if None not in want and [" ".join(x.split()) for x in got_vals] != want:
+                        out.append(("C15:page-not-scaled-by-n-over-servings", "%s: shows %r, expected (written values times %s) %r" % (path, got_vals[:12], k, want[:12])))
                     if scaled_values(html) != scaled_values(mr.render(k)):
                         out.append(("C15:page-not-scaled-by-n-over-servings", "%s: shows %r, expected %r" % (path, scaled_values(html)[:6], scaled_values(mr.render(k))[:6])))
                     if n is not None:
